@@ -23,17 +23,17 @@ ALLOWED_AXIOMS = set()
 TRANSLATORS = []
 
 THEOREM_LIST = [
-    'C18_length_counts_cps', 'C18_utf8_len_ge_length', 'C18_utf8_len_eq_length_iff_ascii',
-    'C18_index_is_nth', 'C18_substr_slice_agree', 'C18_slice_is_skip_take_step', 'C18_slice_no_panic',
-    'C18_split_total', 'C18_join_split', 'C18_split_no_sep_inside',
-    'C18_findSubstr_sound_complete', 'C18_findSubstr_no_panic',
-    'C18_strip_decomposes', 'C18_strip_maximal', 'C18_lstrip_spec', 'C18_rstrip_spec',
-    'C18_splitLimit_first_n', 'C18_splitLimitR_last_n', 'C18_splitLimit_join', 'C18_splitLimitR_join',
+    'C18_length_counts_cps', 'C18_utf8_len_ge_length', 'C18_utf8_len_eq_length_iff_ascii', 'C18_index_is_nth',
+    'C18_index_rejected', 'C18_substr_slice_agree', 'C18_slice_is_skip_take_step', 'C18_slice_no_panic',
+    'C18_split_total', 'C18_join_split', 'C18_split_no_sep_inside', 'C18_std_join_split',
+    'C18_findSubstr_sound_complete', 'C18_findSubstr_in', 'C18_strip_decomposes', 'C18_strip_maximal',
+    'C18_lstrip_spec', 'C18_rstrip_spec', 'C18_splitLimit_first_n', 'C18_splitLimitR_last_n',
+    'C18_rsplit_exists_clean', 'C18_splitLimit_join', 'C18_splitLimitR_join', 'C18_decoded_limit_positive',
     'C18_strReplace_is_join_split', 'C18_reverse_involutive', 'C18_char_codepoint_inverse',
-    'C18_codepoint_char_inverse', 'C18_stringChars_join', 'C18_map_length', 'C18_flatMap_id',
-    'C18_nonvacuous',
+    'C18_char_rejects_non_scalar', 'C18_codepoint_char_inverse', 'C18_stringChars_join', 'C18_map_length',
+    'C18_flatMap_id', 'C18_nonvacuous_split', 'C18_nonvacuous_numbers', 'C18_nonvacuous_strip',
 ]
-THEOREMS = THEOREM_LIST[:1]   # TEMP
+THEOREMS = THEOREM_LIST
 
 
 # ---------------------------------------------------------------- values
